@@ -47,8 +47,31 @@ func schema(tag string) []dump.File {
 		// a module whose import prefixes no processing run ever resolves (they occur in leafref paths
 		// only): whatever the library builds to resolve them is built by the first reader
 		{Name: "v.yang", Text: `module v { ` + H("v") + ` import a { prefix va; } import b { prefix vb; } leaf lr { type leafref { path "/va:c/va:x"; } } container vc { leaf lr2 { type leafref { path "/va:c/vb:y"; } } } }`},
+		// ... and one with twelve such imports (whatever is built to resolve a prefix may be built
+		// differently once the imports are many)
+		{Name: "v12.yang", Text: v12},
+		{Name: "libs.yang", Text: `module lib0 { ` + H("lib0") + ` container c0 { leaf x { type string; } } }`},
+		{Name: "lib1.yang", Text: libN(1)}, {Name: "lib2.yang", Text: libN(2)}, {Name: "lib3.yang", Text: libN(3)}, {Name: "lib4.yang", Text: libN(4)}, {Name: "lib5.yang", Text: libN(5)},
+		{Name: "lib6.yang", Text: libN(6)}, {Name: "lib7.yang", Text: libN(7)}, {Name: "lib8.yang", Text: libN(8)}, {Name: "lib9.yang", Text: libN(9)}, {Name: "lib10.yang", Text: libN(10)}, {Name: "lib11.yang", Text: libN(11)},
 	}
 }
+
+func libN(i int) string {
+	return fmt.Sprintf(`module lib%d { namespace "urn:lib%d"; prefix lib%d; container c%d { leaf x { type string; } } }`, i, i, i, i)
+}
+
+var v12 = func() string {
+	var sb strings.Builder
+	sb.WriteString(`module v12 { ` + H("v12"))
+	for i := 0; i < 12; i++ {
+		fmt.Fprintf(&sb, " import lib%d { prefix p%d; }", i, i)
+	}
+	for i := 0; i < 12; i++ {
+		fmt.Fprintf(&sb, ` leaf r%d { type leafref { path "/p%d:c%d/p%d:x"; } }`, i, i, i, i)
+	}
+	sb.WriteString(" }")
+	return sb.String()
+}()
 
 // schemaIncludes: a module with ten submodules; a typedef that one submodule defines - differently
 // from tag to tag: the sets are independent, they only share their module names - is used by a
@@ -118,6 +141,21 @@ var ops = []op{
 	{"Find(/va:c/vb:y) from v/vc/lr2", func(ms *yang.Modules) string {
 		e := entry(ms, "v").Dir["vc"].Dir["lr2"].Find("/va:c/vb:y")
 		m := yang.FindModuleByPrefix(ms.Modules["v"], "vb")
+		if e == nil || m == nil {
+			return "<nil>"
+		}
+		return e.Path() + " " + m.Name
+	}},
+	{"Find(/p3:c3/p3:x) from v12", func(ms *yang.Modules) string {
+		e := entry(ms, "v12").Find("/p3:c3/p3:x")
+		if e == nil {
+			return "<nil>"
+		}
+		return e.Path() + fmt.Sprint(len(entry(ms, "v12").GetErrors()))
+	}},
+	{"Find(/p11:c11) from v12/r7", func(ms *yang.Modules) string {
+		e := entry(ms, "v12").Dir["r7"].Find("/p11:c11")
+		m := yang.FindModuleByPrefix(ms.Modules["v12"], "p0")
 		if e == nil || m == nil {
 			return "<nil>"
 		}
@@ -326,7 +364,7 @@ func scenarios(tier string) []Scenario {
 	quickOps := map[int]bool{}
 	for i, o := range ops {
 		switch o.name {
-		case "ToEntry(a)", "Find(/a:c/b:y)", "Find(/va:c/va:x) from v", "InstantiatingModule(grafted y)", "InstantiatingModule(a:c/gl)", "InstantiatingModule(b:bc/gl)",
+		case "ToEntry(a)", "Find(/a:c/b:y)", "Find(/va:c/va:x) from v", "Find(/p3:c3/p3:x) from v12", "InstantiatingModule(grafted y)", "InstantiatingModule(a:c/gl)", "InstantiatingModule(b:bc/gl)",
 			"FindModuleByNamespace(urn:a)", "FindModuleByNamespace(urn:b)", "FindModuleByNamespace(urn:none)", "ReadOnly+DefaultValues", "Print", "FindNode through uses":
 			quickOps[i] = true
 		}
